@@ -1261,3 +1261,73 @@ func runIdentExact(p *Program, r *RuleResult) {
 	}
 	r.count("folding calls on identifier fields", n)
 }
+
+// R-COMPARE-ONCE (C09, C08): the structural comparison visits each pair of components once.
+func init() {
+	register(&Rule{Name: "R-COMPARE-ONCE", Min: 1,
+		Doc: "in the functions of the coinductive type equality (those that carry its visited set), no two calls of the same recursive comparison function in one activation receive the same two operands, in either order: comparing a pair of branch lists in both directions compares every pair of branch types twice, and with choice types nested inline the work doubles with every level (2^d for depth d), so a 500-character program keeps the typechecker busy for hours",
+		Run: runCompareOnce})
+}
+
+func runCompareOnce(p *Program, r *RuleResult) {
+	n := 0
+	var fns []*ssa.Function
+	for _, fn := range p.SrcFuncs {
+		if fn.Pkg != nil && fn.Pkg.Pkg.Path() == typesPkg && fn.Blocks != nil && holderOf(fn, isMapStringBool) != nil {
+			fns = append(fns, fn)
+		}
+	}
+	sort.Slice(fns, func(i, j int) bool { return fnName(fns[i]) < fnName(fns[j]) })
+	for _, fn := range fns {
+		type callT struct {
+			c   ssa.CallInstruction
+			ops []ssa.Value
+		}
+		byCallee := map[*ssa.Function][]callT{}
+		for _, c := range p.callsIn(fn) {
+			sc := c.Common().StaticCallee()
+			if sc == nil || sc.Pkg != fn.Pkg || holderOf(sc, isMapStringBool) == nil {
+				continue
+			}
+			var ops []ssa.Value
+			for _, a := range c.Common().Args {
+				if isSessionTypeType(a.Type()) || isOptionSlice(a.Type()) {
+					ops = append(ops, origin(a))
+				}
+			}
+			if len(ops) == 2 {
+				byCallee[sc] = append(byCallee[sc], callT{c, ops})
+			}
+		}
+		var callees []*ssa.Function
+		for sc := range byCallee {
+			callees = append(callees, sc)
+		}
+		sort.Slice(callees, func(i, j int) bool { return fnName(callees[i]) < fnName(callees[j]) })
+		for _, sc := range callees {
+			cs := byCallee[sc]
+			n++
+			bad := ""
+			for i := 0; i < len(cs); i++ {
+				for j := i + 1; j < len(cs); j++ {
+					a, b := cs[i].ops, cs[j].ops
+					ka0, ka1, kb0, kb1 := exprKey(a[0]), exprKey(a[1]), exprKey(b[0]), exprKey(b[1])
+					same := (a[0] == b[0] && a[1] == b[1]) || (a[0] == b[1] && a[1] == b[0])
+					if ka0 != "" && ka1 != "" && ((ka0 == kb0 && ka1 == kb1) || (ka0 == kb1 && ka1 == kb0)) {
+						same = true
+					}
+					if same {
+						bad = fmt.Sprintf("%s is called at %s and again at %s with the same two operands (%s, %s): every pair of components below them is compared twice per level", sc.Name(), p.instrPos(cs[i].c), p.instrPos(cs[j].c), displayKey(a[0]), displayKey(a[1]))
+					}
+				}
+			}
+			construct := "pairs-compared-once:" + sc.Name()
+			if bad != "" {
+				r.add(fnName(fn), construct, Violated, p.pos(fn.Pos()), bad)
+			} else {
+				r.add(fnName(fn), construct, Holds, p.pos(fn.Pos()), fmt.Sprintf("%d call(s), all on different operand pairs", len(cs)))
+			}
+		}
+	}
+	r.count("recursive comparison callees per function", n)
+}
